@@ -15,6 +15,7 @@ Proved here for **every** byte string, both position modes, every number oracle,
 * `C01_cx_pattern_slice`     and without that reset the 12-byte input `a: xx*${y}z*` does panic (counterexample)
 * `reader_inv`, `replay_ok_iff'`, `nonspace_not_newline'`  the reader algebra facts the above rest on
 * `callSites_safe`           every replay / Subtract call site found in the source is of a class discharged above
+* `C01_ws_loops_terminate_partial`  peekNotSpace / readNotSpace never hit the model's bound (termination, partial)
 What is *not* proved: that the model's bound (`fuelFor`) is never hit, i.e. termination of the real loops
 (`C01_full_statement` keeps the whole sentence visible; termination is sampled by the correspondence stream, where
 `out-of-fuel` would be a mismatch, and searched on the implementation with a time-out).
@@ -40,6 +41,12 @@ theorem replay_ok_iff' {s : PState} {r : Char} : (∃ s', replay r s = .ok ((), 
 theorem replay_keeps_inv {input : List Char} {s s' : PState} {r : Char} {tl : List Char} (h : RInv input s)
     (hg : s.lookahead = []) (hc : s.consumed = r :: tl) (e : replay r s = .ok ((), s')) : RInv input s' :=
   rinv_replay h hg hc e
+
+/-- **termination, partial**: the two whitespace-skipping loops every parse function starts with never exhaust the
+    bound the entry points use (`fuelFor input = |input| + 4`), in any state reachable under the reader invariant -/
+theorem C01_ws_loops_terminate_partial {input : List Char} {s : PState} (h : RInv input s) (hf : input.length < s.fuel) :
+    (∃ o s', peekNotSpace s = .ok (o, s')) ∧ (∃ o s', readNotSpace s = .ok (o, s')) :=
+  ⟨peekNotSpace_terminates h hf, readNotSpace_terminates h hf⟩
 
 /-- tie R: every `p.replay(x)` / `.Subtract(x)` / `.SubtractString(x)` in the parse.go under test takes a literal
     without newline, the result of peekNotSpace/readNotSpace, or a parameter only ever given such a value -/
